@@ -130,8 +130,9 @@ fn compile_source(
     let mut vm =
         VM::with_config_and_args(src.clone(), config, Vec::new()).map_err(|err| err.to_string())?;
 
-    let (imports, _loader) = load_modules_with_loader(&stmts, path, src.clone(), &mut vm)
+    let (mut imports, _loader) = load_modules_with_loader(&stmts, path, src.clone(), &mut vm)
         .map_err(|err| err.to_string())?;
+    imports.include_auto_registered(&vm);
 
     let main_stmts: Vec<_> = stmts
         .into_iter()
